@@ -21,7 +21,7 @@ Section Nullable.
     destruct (all_nullable nu (body p)); [exists [head p]; reflexivity | apply extends_refl].
   Qed.
 
-  Lemma null_pass_extends nu : extends nu (null_pass G nu).
+  Lemma null_pass_extends l nu : extends nu (null_pass l nu).
   Proof. apply fold_extends, null_step_extends. Qed.
 
   (** ** soundness *)
@@ -51,15 +51,17 @@ Section Nullable.
     apply null_step_sound; [apply Hl; now left | exact Hs].
   Qed.
 
-  Lemma null_pass_sound nu : null_sound nu -> null_sound (null_pass G nu).
-  Proof. apply null_fold_sound, incl_refl. Qed.
+  Lemma null_pass_sound l nu : incl l (prods G) -> null_sound nu -> null_sound (null_pass l nu).
+  Proof. apply null_fold_sound. Qed.
 
   (** ** completeness at a fixpoint *)
-  Lemma null_fixed_closed nu :
-    null_pass G nu = nu ->
+  Definition null_closed (nu : list nat) : Prop :=
     forall p, In p (prods G) -> all_nullable nu (body p) = true -> In (head p) nu.
+
+  Lemma null_fixed_closed l nu :
+    (forall p, In p (prods G) -> In p l) -> null_pass l nu = nu -> null_closed nu.
   Proof.
-    intros Hfix p Hp Hb.
+    intros Hl Hfix p Hp Hb. apply Hl in Hp.
     pose proof (fold_fixed null_step null_step_extends _ _ Hfix p Hp) as E.
     unfold null_step in E. destruct (mem (head p) nu) eqn:M; [now apply mem_In|].
     rewrite Hb in E. exfalso.
@@ -71,7 +73,7 @@ Section Nullable.
   Proof. unfold all_nullable. apply forallb_app. Qed.
 
   Lemma null_complete_form nu :
-    null_pass G nu = nu ->
+    null_closed nu ->
     forall x y, clos_refl_trans_1n _ (step G) x y -> y = [] -> all_nullable nu x = true.
   Proof.
     intros Hfix x y H. induction H as [x | x z y Hstep _ IH]; intros ->; [reflexivity|].
@@ -79,10 +81,10 @@ Section Nullable.
     rewrite !all_nullable_app in IH. apply andb_true_iff in IH. destruct IH as [Hu Hv].
     apply andb_true_iff in Hv. destruct Hv as [Hb Hv].
     rewrite all_nullable_app. simpl. rewrite Hu, Hv. simpl. rewrite andb_true_r.
-    apply mem_In. now apply null_fixed_closed.
+    apply mem_In. now apply Hfix.
   Qed.
 
-  Lemma null_complete nu A : null_pass G nu = nu -> nullable_nt G A -> In A nu.
+  Lemma null_complete nu A : null_closed nu -> nullable_nt G A -> In A nu.
   Proof.
     intros Hfix H. apply clos_rt_rt1n in H.
     pose proof (null_complete_form nu Hfix _ _ H eq_refl) as E.
@@ -110,11 +112,14 @@ Section Nullable.
     apply IH; auto. intros x Hx; apply Hl; now right.
   Qed.
 
-  Lemma nullable_terminates : nullable G <> None.
+  Variable O : oracle.
+  Hypothesis HO : orders_ok G (o_null O).
+
+  Lemma nullable_terminates : nullable G O <> None.
   Proof.
     unfold nullable.
-    apply (sat_loop_terminates (null_pass G) null_pass_extends (map head (prods G))).
-    - intros x Hn Hi. apply null_fold_inv; auto. apply incl_refl.
+    apply (sat_loop_terminates (fun i => null_pass (o_null O i)) (fun i => null_pass_extends _) (map head (prods G))).
+    - intros j x Hn Hi. apply null_fold_inv; auto. intros p Hp. now apply (HO j).
     - constructor.
     - intros x [].
     - rewrite map_length. simpl. lia.
@@ -122,14 +127,16 @@ Section Nullable.
 
   (** ** the theorem *)
   Theorem nullable_exact :
-    exists nu, nullable G = Some nu /\ forall A, In A nu <-> nullable_nt G A.
+    exists nu, nullable G O = Some nu /\ forall A, In A nu <-> nullable_nt G A.
   Proof.
-    destruct (nullable G) as [nu|] eqn:E; [|now destruct nullable_terminates].
-    exists nu. split; [reflexivity|]. intros A. split.
-    - revert A. change (null_sound nu). unfold nullable in E.
-      eapply (sat_loop_inv (null_pass G) null_sound); [apply null_pass_sound | | exact E].
-      intros A [].
-    - apply null_complete. unfold nullable in E.
-      eapply sat_loop_fix; [apply null_pass_extends | exact E].
+    destruct (nullable G O) as [nu|] eqn:E; [|now destruct nullable_terminates].
+    exists nu. split; [reflexivity|]. intros A. unfold nullable in E. split.
+    - revert A. change (null_sound nu).
+      eapply (sat_loop_inv (fun i => null_pass (o_null O i)) null_sound); [| | exact E].
+      + intros j x. apply null_pass_sound. intros p Hp. now apply (HO j).
+      + intros A [].
+    - apply null_complete.
+      destruct (sat_loop_fix (fun i => null_pass (o_null O i)) (fun i => null_pass_extends _) _ _ _ _ E) as [j Hj].
+      apply (null_fixed_closed (o_null O j)); [|exact Hj]. intros p Hp. now apply (HO j).
   Qed.
 End Nullable.
